@@ -15,6 +15,10 @@ type ConcProgram struct {
 	Independent bool
 	Features    []string
 	Threads     int
+	// MayReject: the program uses a construct outside the documented subset (go statement on
+	// a named function or method with arguments); goose may refuse it, but if it accepts it
+	// the usual oracle applies.
+	MayReject bool
 }
 
 type cgen struct {
@@ -87,6 +91,9 @@ func GenerateConcurrent(t *rapid.T) *ConcProgram {
 	g := &cgen{t: t, feats: map[string]bool{}}
 	if g.chance("loopvarshape", 20) {
 		return g.loopVarCapture()
+	}
+	if g.chance("gocallshape", 12) {
+		return g.goCallFrontier()
 	}
 	independent := g.chance("independent", 55)
 	nthreads := 1 + g.pick("nthreads", 3)
@@ -301,4 +308,33 @@ func (g *cgen) loopVarCapture() *ConcProgram {
 		feats = append(feats, f)
 	}
 	return &ConcProgram{Src: "package main\n\nimport (\n\t\"sync\"\n)\n\n" + b.String(), Independent: true, Features: feats, Threads: 2}
+}
+
+// goCallFrontier: `go f(args)` / `go x.m(args)` on named functions, whose operands read cells
+// that the parent overwrites right after the go statement. Go evaluates the operands in the
+// spawning goroutine, so the result does not depend on the schedule.
+func (g *cgen) goCallFrontier() *ConcProgram {
+	g.feat("go-call-with-arguments")
+	var b strings.Builder
+	w := func(format string, a ...any) { fmt.Fprintf(&b, format, a...) }
+	method := g.chance("gomethod", 40)
+	w("type Rec struct {\n\tv uint64\n}\n\n")
+	w("func record(x uint64, out *uint64, wg *sync.WaitGroup) {\n\t*out = x\n\twg.Done()\n}\n\n")
+	w("func (r *Rec) put(x uint64, wg *sync.WaitGroup) {\n\tr.v = x\n\twg.Done()\n}\n\n")
+	w("func entry0() (uint64, uint64) {\n")
+	w("\tvar x uint64 = %d\n\tp := new(uint64)\n\t*p = %d\n\tout := new(uint64)\n\tr := &Rec{}\n\twg := new(sync.WaitGroup)\n\twg.Add(1)\n", g.lit("gcx")%100, g.lit("gcp")%100)
+	arg := []string{"x", "*p", "x + *p"}[g.pick("gcarg", 3)]
+	if method {
+		g.feat("go-method-call")
+		w("\tgo r.put(%s, wg)\n", arg)
+	} else {
+		w("\tgo record(%s, out, wg)\n", arg)
+	}
+	w("\tx = %d\n\t*p = %d\n", 200+g.pick("gcx2", 50), 300+g.pick("gcp2", 50))
+	w("\twg.Wait()\n\treturn *out + r.v, x\n}\n")
+	var feats []string
+	for f := range g.feats {
+		feats = append(feats, f)
+	}
+	return &ConcProgram{Src: "package main\n\nimport (\n\t\"sync\"\n)\n\n" + b.String(), Independent: true, Features: feats, Threads: 2, MayReject: true}
 }
